@@ -144,7 +144,7 @@ theorem countBounds_append (a b : List BoF) : countBounds (a ++ b) = countBounds
     | filler f => simpa [countBounds] using ih
     | bound c => simp only [List.cons_append, countBounds, ih]; omega
 
-theorem countBounds_map_bound (l : List UserBounds) : countBounds (l.map .bound) = l.length := by
+theorem countBounds_map_bound_u (l : List UserBounds) : countBounds (l.map .bound) = l.length := by
   induction l with
   | nil => rfl
   | cons x t ih => simp [countBounds, ih]
@@ -163,7 +163,7 @@ theorem countBounds_le_expand (n : Nat) : ∀ (l : List BoF),
   | .bound b :: t => by
     have := countBounds_le_expand n t
     have h1 := expandBound_length_pos b n
-    simp only [mapBounds, countBounds, countBounds_append, countBounds_map_bound]
+    simp only [mapBounds, countBounds, countBounds_append, countBounds_map_bound_u]
     omega
 
 /-! ## A. where the engine does not expand -/
@@ -278,7 +278,7 @@ theorem countBounds_expand_of_no_unpack (n : Nat) : ∀ (l : List BoF), l.any ne
         obtain ⟨lo, hi⟩ := p
         obtain ⟨rfl, _, _⟩ := resolve_of_single hlr hnc hres
         simp
-    simp only [mapBounds, countBounds, countBounds_append, countBounds_map_bound, hlen, ih]
+    simp only [mapBounds, countBounds, countBounds_append, countBounds_map_bound_u, hlen, ih]
     omega
 
 /-- **where the engine skips the expansion** (no bound is a range: every bound is one written
